@@ -237,6 +237,7 @@ func EncryptWith(recipients []age.Recipient, spec FileSpec, segs []int, dst io.W
 	}
 	failed := false
 	off := 0
+	var scratch []byte
 	for _, s := range segs {
 		if s < 0 {
 			// the caller feeds the rest with io.Copy from a plain reader (what cmd/age does):
@@ -258,7 +259,17 @@ func EncryptWith(recipients []age.Recipient, spec FileSpec, segs []int, dst io.W
 		if off+s > len(p) {
 			s = len(p) - off
 		}
-		n, err := w.Write(p[off : off+s])
+		// the caller owns the buffer again as soon as Write returns (io.Writer contract): write from a
+		// scratch buffer and scribble over it afterwards
+		if cap(scratch) < s {
+			scratch = make([]byte, s)
+		}
+		wb := scratch[:s]
+		copy(wb, p[off:off+s])
+		n, err := w.Write(wb)
+		for i := range wb {
+			wb[i] = 0xAA
+		}
 		res.WriteNs = append(res.WriteNs, n)
 		res.WriteErrs = append(res.WriteErrs, err)
 		if err != nil {
